@@ -159,6 +159,9 @@ class BuiltinMixin:
 
     def length(self, x: SV, st, fr, node):
         v = self.voc
+        if x.t is not None and z3.is_app(x.t) and x.t.decl().kind() == z3.Z3_OP_ITE and x.pt in ("list", "tuple", "set", "frozenset", "dict", "str"):
+            c_, a_, b_ = x.t.children()
+            return z3.If(c_, self.length(SV(a_, x.pt), st, fr, node), self.length(SV(b_, x.pt), st, fr, node))
         if x.pt == "str":
             return z3.Length(x.t)
         if x.pt in ("list", "tuple"):
